@@ -207,6 +207,15 @@ func runC04(c *Ctx) {
 	c04Layout(c)
 	c04Munch(c)
 	c04DecodeWrites(c, c.P)
+	c.R.Rule("decode-verbatim", "in the tokenizer's readers the rune or byte written to a value buffer inside a loop is never f(c) for a character c decoded in that loop and a function f of this module: content is kept as written, a mapping such as normalizeQuote may only serve the comparison with the delimiter")
+	c.R.Floor("decode-verbatim", c04DecodeVerbatim(c, c.P, "pkg/sql/tokenizer", nil), 5, "buffer writes inside tokenizer loops")
+	if c.Controls {
+		if cp := c.Control("c04"); cp != nil {
+			fired := map[string]bool{}
+			c04DecodeVerbatim(c, cp, "gosqlxsa/controls/c04", fired)
+			c.R.Control("decode-verbatim", fired["c04.rewriting|write#1"] && !fired["c04.verbatim|write#1"], "controls/c04 rewriting (writes fold(c)) and verbatim (writes c, folds only to compare)")
+		}
+	}
 }
 
 func c04Tables(c *Ctx, p *core.Prog) {
